@@ -472,8 +472,20 @@ crate::harnesses! { REG;
         let ok = m034.to_o() == x.mul(e034) && m014.to_o() == x.mul(e014);
         assert!(ok);
     }
-    /// thorough required timeout=3000 | cyclotomic operations on Fp2/F_7, Fp4/F_13 restricted to the cyclotomic subgroup (assume norm-type condition x^(q+1) = 1): cyclotomic_square = square, cyclotomic_inverse = inverse, cyclotomic_exp(e) = pow(e) for ALL e < 2^5
-    #[unwind(70)]
+    /// thorough required timeout=3000 unwindset=BitIteratorBE:66,>::pow:8,exp_loop:8,find_naf:8 | Fp3/F_7 (default CyclotomicMultSubgroup impl, INVERSE_IS_FAST = false): cyclotomic_exp(e) = pow(e), cyclotomic_square = square, cyclotomic_inverse = inverse for ALL non-zero x and ALL exponents e < 2^5
+    #[unwind(20)]
+    fn c02_cyclotomic_fp3() {
+        let x = O7_3::any();
+        assume(!x.is_zero());
+        let a = F7_3::from_o(&x);
+        let e: u64 = any();
+        let e = e & 31;
+        crate::cover!(e == 7 && x != O7_3::one());
+        let ok = a.cyclotomic_exp([e]).to_o() == x.pow(e as u32) && a.cyclotomic_square() == a.square() && a.cyclotomic_inverse() == a.inverse();
+        assert!(ok);
+    }
+    /// thorough required timeout=3000 unwindset=BitIteratorBE:66,>::pow:8,exp_loop:8,find_naf:8 | cyclotomic operations on Fp2/F_7 restricted to the cyclotomic subgroup (x * conj(x) = 1): cyclotomic_square = square, cyclotomic_inverse = inverse (conjugation), cyclotomic_exp(e) (NAF path) = pow(e) for ALL e < 2^5
+    #[unwind(20)]
     fn c02_cyclotomic_fp2_fp4() {
         let x = O7_2::any();
         // unit circle of Fp2: x * conj(x) = 1
